@@ -326,6 +326,10 @@ def term(e, ctx):
         return ("loop", term(e["body"], ctx))
     if k == "for":
         it = term(e["iter"], ctx)
+        ity = (e["iter"] or {}).get("ty") or ""
+        if isinstance(ity, str) and re.match(r"^(&(mut )?\[|&(mut )?std::vec::Vec<|std::vec::Vec<|std::slice::Iter<|std::vec::IntoIter<|std::iter::(Cloned|Copied)<std::slice::Iter<)", ity) \
+                and not (isinstance(it, tuple) and it and it[0] == "call" and it[1] in ("iter",)) and not (isinstance(it, tuple) and it and it[0] in ("range", "rangei")):
+            it = ("call", "iter", it)       # iteration over a collection, however it is spelt (for x in v / in &v / in v.iter())
         saved = dict(ctx.env)
         p = pat_term(e["pat"], ctx)
         b = term(e["body"], ctx)
@@ -581,6 +585,12 @@ def _flip_not(t):
             for d in dis[1:]:
                 conj = ("op", "and", "bool", conj, _neg(d))
             t = ("if", conj, t[3], t[2])
+    # n <= k  ==  !(n > k)  on lengths (total order)
+    if _is(t, "if") and len(t) == 4 and t[3] != ("unit",) and _is(t[1], "op") and len(t[1]) == 5 and t[1][2] == "usize" and _is(t[1][3], "call") and t[1][3][1] == "Vec::len":
+        if t[1][1] == "le":
+            t = ("if", ("op", "gt") + t[1][2:], t[3], t[2])
+        elif t[1][1] == "ge":
+            t = ("if", ("op", "lt") + t[1][2:], t[3], t[2])
     # a != b is exactly !(a == b) (also for NaN)
     if _is(t, "if") and len(t) == 4 and t[3] != ("unit",) and _is(t[1], "op") and len(t[1]) == 5 and t[1][1] == "ne":
         t = ("if", ("op", "eq") + t[1][2:], t[3], t[2])
@@ -614,9 +624,15 @@ def normalise(t):
         if isinstance(name, str) and len(t) == 3:
             # iteration over a collection, however spelt:  v.into_iter() / v.iter() / (&v).into_iter() / v.iter().cloned()
             if name in ("[T]::iter", "Vec::iter") or re.match(r"^<&?(mut )?(Vec<.*>|\[.*\]) as iter::IntoIterator>::into_iter$", name):
+                if _is(t[2], "call") and len(t[2]) == 3 and t[2][1] == "iter":
+                    return t[2]
                 return ("call", "iter", t[2])
+            if name == "iter" and _is(t[2], "call") and len(t[2]) == 3 and t[2][1] == "iter":
+                return t[2]
             if re.search(r"iter::Iterator>::(cloned|copied)$", name) or name in ("Iterator::cloned", "Iterator::copied", "iter::Iterator::cloned", "iter::Iterator::copied"):
                 return t[2]
+            if name in ("Vec::with_capacity",):
+                return ("call", "Vec::new")        # a capacity hint is not observable
             if name in ("[T]::len",):
                 return ("call", "Vec::len", t[2])
             if name in ("[T]::is_empty",):
@@ -654,6 +670,28 @@ def normalise(t):
             else:
                 flat.append(x)
         items = _strip_unit_tail(flat)
+        # let x = { a; b; v }   ==  a; b; let x = v
+        flat2 = []
+        for x in items:
+            if _is(x, "let") and len(x) == 3 and _is(x[2], "seq") and len(x[2]) > 2:
+                flat2.extend(x[2][1:-1])
+                flat2.append(("let", x[1], x[2][-1]))
+            else:
+                flat2.append(x)
+        if flat2 != items:
+            return normalise(("seq",) + tuple(flat2))
+        # let x = y (y a local that is not used afterwards): x is y
+        for i, x in enumerate(items):
+            if _is(x, "let") and len(x) == 3 and _is(x[2], "var") and isinstance(x[2][1], str) and re.match(r"^[mv]\d+$", x[2][1]) and isinstance(x[1], str):
+                rest = items[i + 1:]
+                if not any(y == x[2] for r_ in rest for y in _subterms(r_)):
+                    def rn(z, a=x[1], b=x[2][1]):
+                        if isinstance(z, tuple):
+                            if z == ("var", a):
+                                return ("var", b)
+                            return tuple(rn(w) for w in z)
+                        return z
+                    return normalise(("seq",) + tuple(items[:i]) + tuple(rn(r_) for r_ in rest))
         # early-exit guard:  (if c (return X)) ; rest   ==>  (if c X rest)
         for i, x in enumerate(items):
             if _is(x, "if") and x[3] == ("unit",) and _always_returns(x[2]) and i < len(items) - 1:
@@ -773,6 +811,11 @@ def normalise(t):
         return normalise(sv(t[1][2]))
     if h == "Ok" and len(t) == 2 and _is(t[1], "try") and _is(t[1][1], "lift"):
         return t[1][1]
+    if h == "ctor" and len(t) == 3 and _is(t[2], "seq") and len(t[2]) > 2:
+        return normalise(t[2][:-1] + (("ctor", t[1], t[2][-1]),))
+    if h in ("ctor",) and len(t) == 3 and _is(t[2], "if") and len(t[2]) == 4 and _is(t[2][2], "return"):
+        # C(if c {return e} else {x})  ==  if c {return e} else {C(x)}
+        return normalise(("if", t[2][1], t[2][2], ("ctor", t[1], t[2][3])))
     if h == "Ok" and len(t) == 2 and _is(t[1], "seq") and len(t[1]) > 2:
         return normalise(t[1][:-1] + (("Ok", t[1][-1]),))
     if h == "Ok" and len(t) == 2 and _is(t[1], "match") and len(t[1]) > 2:
